@@ -42,11 +42,11 @@ def run(report, tier, seed):
 
         def bad(kind, lang, detail):
             report.violation(f"stream:{kind}:{lang}", dict(detail, theorem_or_correspondence=f"CIS model vs {lang} runtime ({kind})"), "")
-        streamcorr.reader_corr(report, sd, lean, rng, [10, 11, 16, 64], 60 if quick else 1500, 7, bad, truncate="all")
+        streamcorr.reader_corr(report, sd, lean, rng, [10, 11, 16, 64], 25 if quick else 1500, 7, bad, truncate="all")
         sd.close()
         _witnesses(report, sc, lean)
         # (2) generated readers
-        gens = [(i, modelgen.Gen(seed * 100019 + i)) for i in range(2 if quick else 20)]
+        gens = [(i, modelgen.Gen(seed * 100019 + i)) for i in range(1 if quick else 20)]
         labs = codeclab.prepare_labs(sc, ybin, gens, ndjson=False, sanitize=not quick)
         dlab = codeclab.Lab(sc, ybin, 1000, modelgen.Gen(seed * 100019 + 1000), pkg=modelgen.directed_package(),
                             ndjson=False, sanitize=not quick).prepare()
@@ -121,7 +121,7 @@ def _cuts(report, lab, lean, rng, quick, seed):
             if len(ref) <= 400 and len(cuts) > (120 if quick else 400):
                 cuts = sorted(rng.sample(cuts, 120 if quick else 400))
             if directed and quick and variant == "small":
-                cuts = sorted(rng.sample(cuts, min(len(cuts), 40)))
+                cuts = sorted(rng.sample(cuts, min(len(cuts), 25)))
             for cut in cuts:
                 inp = lab.tmp(".cut.bin")
                 open(inp, "wb").write(ref[:cut])
